@@ -6,16 +6,40 @@ import os
 ROOT = os.path.dirname(os.path.dirname(os.path.abspath(__file__)))
 TECH = "contract-based deductive verification: sidecar contracts on the real functions, VCs generated from /repo's AST by pyvc, discharged by z3 (cvc5 for unknowns)"
 CLAIMED = {
-    "C01": ("proof", "should_run is proved equal to the make-style oracle Stale for every target, file state and spec-hash state; the schedule closure (C02) lifts it to the status table. Path flattening is an assumed contract (see level_note).",
-            "trusted: Target.flattened_inputs/outputs contract (elems == Ins/Outs), Fs/SpecHashes interface contracts, finite real mtimes, z3, pyvc's encoding of the Python subset", "4 C01"),
-    "C02": ("proof", "schedule/_schedule/_cached_schedule are proved, for every DAG, backend answer and file state, to return Spec on exactly the dependency cone and to call the submit callback exactly for the targets that need it, once, after their prerequisites, naming exactly the incomplete direct dependencies (ghost submission log).",
-            "trusted: interface contracts of status_func/submit_func (checked against the real callbacks under C05/C09), definitional axiom of Spec over the acyclic rank, z3, pyvc encoding", "4 C02"),
-    "C03": ("proof", "Graph.from_targets is proved to build exactly the path-induced relation, its inverse, the producer map and the unresolved set; endpoints() and _norm_path == Canon are proved; `gwf info` printing is not under contract yet.",
+    "C01": ("proof", "should_run is proved equal to the make-style oracle Stale (strict >, every declared output present, at least one declared file, spec change) for every target, file state and spec-hash state; schedule/get_status_map lift it to the status table (Spec). Path flattening is an assumed contract (level_note).",
+            "trusted: Target.flattened_inputs/outputs contract (elems == Ins/Outs, i.e. grouping-independence of _flatten is assumed, not yet proved), Fs interface (consistent snapshot), finite real mtimes, sha1 as a function of the text, z3, pyvc's encoding of the Python subset", "4 C01"),
+    "C02": ("proof", "schedule/_schedule/_cached_schedule are proved, for every DAG, backend answer and file state, to return Spec on exactly the dependency cone (least closed set, by the arbitrary-superset argument) and to call the submit callback exactly for the targets that need it, once, after their prerequisites, naming exactly the incomplete direct dependencies (ghost submission log). The three real callbacks and backend.status are proved to refine the callback interfaces; filter_names/endpoints select the requested targets.",
+            "trusted: definitional axiom of Spec over the acyclic rank (Lean meta-lemma), fnmatch as an uninterpreted relation, scheduler hands out ids not currently tracked, z3, pyvc encoding", "4 C02"),
+    "C03": ("proof", "Graph.from_targets is proved to build exactly the path-induced relation, its inverse (no empty entries), the producer map and the unresolved set; endpoints() and _norm_path == Canon are proved. `gwf info` printing is not under contract.",
             "trusted: Target.flattened_* contracts, os.path algebra (isabs/join/abspath/normpath), attrs-generated Graph constructor, z3, pyvc encoding", "4 C03"),
-    "C04": ("proof", "from_targets returns normally only for single-producer, resolved, acyclic workflows (DFS with ghost finishing times exported as rank) and each of the three errors is proved to name a defect that is really present; termination/stack depth are not mechanised.",
-            "trusted: as C03; termination of the DFS and recursion depth are argued on paper / not decided", "4 C04"),
+    "C04": ("proof", "from_targets returns normally only for single-producer, resolved, acyclic workflows (three-colour DFS with ghost finishing times exported as rank) and each of the three errors is proved to name a defect that is really present; run/clean/touch/cancel are proved to have no effect (no submission, removal, touch, cancellation, state-file write) when graph building fails. Termination and recursion depth are not mechanised.",
+            "trusted: as C03; termination of the DFS argued on paper; deep recursion (RecursionError on ~1000-deep chains) is NOT decided by these contracts", "4 C04"),
+    "C05": ("proof", "one schedule() serves status, dry run and run: the three real callbacks refine one interface, so the table and the submission log are the same function of the initial state; with a non-submitting callback (status, dry run) the scheduler ghost, the tracked ids and every spec-hash answer are proved unchanged, `gwf run --dry-run` removes no log; filter composition is proved pointwise. Output formatting (print_table/print_summary) and the status command body are not under contract yet.",
+            "trusted: click, StatusFilter (8 lines, modelled), endpoint-cover meta-lemma (every target lies in the cone of some endpoint), z3, pyvc encoding", "4 C05"),
+    "C09": ("proof", "TrackingBackend.submit/close/__exit__, submit_backend, schedule and the run command are proved: a rejected submission leaves no trace (no tracked id, no hash), the hash is recorded only after the backend accepted, and on every exit of `gwf run` after the backend was created - normal, BackendError, OSError at close - the tracked-jobs file holds exactly the backend's ids. A hard kill between two submissions (ids durable only at exit) and torn writes are NOT covered: see level_note.",
+            "not decided: process kill between submissions / during json.dump (crash invariants on the state files are not generated yet); trusted: json round trip, scheduler id freshness, z3, pyvc encoding", "4 C09"),
+    "C15": ("proof", "the clean command is proved to call os.remove only on unprotected declared outputs of the selected (non-endpoint unless --all) targets, to change nothing when the prompt is declined or graph building fails; spec-hash invalidation per target is in FileSpecHashes.invalidate's contract.",
+            "trusted: Target.flattened_outputs/protected contracts (same Canon), os.remove (may fail: file then stays), click.confirm, filters' dispatch lemmas, z3, pyvc encoding", "4 C15"),
+    "C16": ("proof", "touch_workflow/_visit (with lru_cache semantics) are proved to touch exactly the declared outputs of the selected cone, every dependency's outputs for the last time before the first touch of any output of a dependent, and to record the spec hash of every visited target; the consequence `status reports completed` is a lemma not yet generated.",
+            "trusted: Path.touch(exist_ok=True) creates or only updates times, monotone clock, z3, pyvc encoding", "4 C16"),
+    "C17": ("proof", "cancel_many/cancel/TrackingBackend.cancel are proved: only the latest tracked job of a selected target is cancelled, every selected target is attempted whatever happened to the others (TargetError/BackendError do not stop the loop), a declined prompt cancels nothing. Per-backend cancel commands are not under contract yet.",
+            "trusted: scheduler carries out the cancellation, click, fnmatch, z3, pyvc encoding", "4 C17"),
+    "C18": ("proof", "FileSpecHashes/NoopSpecHashes are proved against one interface with whole-view postconditions (update/invalidate pin every other key; close persists; constructor reloads); get_spec_hashes is file-backed iff use_spec_hashes is truthy; update is called only after an accepted submission (submit_backend) and in touch; previews leave every Changed() answer unchanged.",
+            "trusted: sha1 as a function, json round trip, attrs constructor glue, z3, pyvc encoding; the census of other writers of .hashes is not automated yet", "4 C18"),
+    "C20": ("proof", "try_int/try_true/try_false/try_conv are proved equal to the coercion oracle (canonical decimal -> int incl. 0, yes/no/true/false -> bool, rest text); FileConfig get/set/unset/items/dump over ChainMap semantics with whole-view postconditions (unset of an unset key is a no-op); get_namespace by the two-level string proof (opaque InNs/NsKey, revealed at a cut). create_backend / cli.main precedence are not under contract yet.",
+            "trusted: int() on non-canonical spellings left open (as the statement does), ChainMap semantics as modelled, json round trip, z3 string solver for the quantifier-free cuts", "4 C20"),
 }
-NOT_YET = {}
+NOT_YET = {
+    "C06": "convergence is a lemma over the contracts of C01/C02/C07 under environment assumptions E1-E5; the lemma obligations are not generated yet in this round",
+    "C07": "TrackingBackend.submit (ids of exactly the given dependencies reach ops.submit_target) is proved under C09; the per-backend command lines (sbatch/qsub/bsub/local) are not under contract yet",
+    "C08": "TrackingBackend.status/_init_tracked are proved (under C09/C05); the per-backend state tables and merge logic are not under contract yet",
+    "C10": "option resolution in submit_backend is proved (under C05); compile_script of the three cluster backends and log-path agreement are not under contract yet",
+    "C11": "local worker pool: asyncio model not built yet in this round",
+    "C12": "local worker pool: asyncio model not built yet in this round",
+    "C13": "local worker pool: asyncio model not built yet in this round",
+    "C14": "local worker pool server: not built yet in this round",
+    "C19": "workflow definition (Workflow.target/map, name/path validators, find_workflow): contracts not written yet in this round",
+}
 
 
 def main():
